@@ -174,6 +174,10 @@ class Ctx:
         os.makedirs(self.build, exist_ok=True)
         os.makedirs(os.path.join(ROOT, "evidence"), exist_ok=True)
         os.makedirs(os.path.join(ROOT, "replays"), exist_ok=True)
+        import glob
+        for old in glob.glob(os.path.join(ROOT, "replays", f"{prop}-*.json")):
+            if not os.environ.get("VERIF_KEEP_REPLAYS"):
+                os.remove(old)
         self.obligations = []          # {name, discharged, assumptions}
         self.evaluations = 0
         self.nontrivial = set()
